@@ -283,9 +283,13 @@ pub fn exec_de<F: Family>(it: &mut Interp<F>, w: usize, args: &[String]) -> Opti
             });
             if leaked > 0 {
                 no_lib(|| *it.stats.entry("de:err-leaked-values".to_string()).or_insert(0) += leaked as u64);
+                // C04: "values produced by … deserialization are owned independently and obey the same
+                // rule" (dropped exactly once): a deserialization that fails must drop what it built
+                ledger_error(format!("oracle=drops a failing {} deserialization never dropped {} of the values it had built", if rows { "row-wise" } else { "column-wise" }, leaked));
             }
             take_drops();
-            // memory of values leaked by a *failed* deserialization never belonged to a world
+            // (memory of values leaked by a failed deserialization is reported above, once, as a leak
+            // of values; it is not reported a second time by the allocator audit)
             let after = crate::alloc_audit::snapshot();
             it.alloc_base.0 += after.0 - before.0;
             it.alloc_base.1 += after.1 - before.1;
